@@ -336,6 +336,9 @@ def method_call(self, name, e, st, spec):
     except EngineError:
         return NotImplemented
     m = f.attr
+    if isinstance(recv, Rec) and isinstance(recv.fields.get(m), Func):
+        # a function-valued field of a by-value record (library models): application of that pure function
+        return self.apply_func(recv.fields[m], [self.ev(a, st, spec) for a in e.args], st, spec, e)
     if isinstance(recv, Opt) and isinstance(recv.val, (Ref, Handle)):
         # Optional[object]: calling a method on None would raise AttributeError
         if not spec:
@@ -638,6 +641,14 @@ def contains(self, container, item, st, spec, node):
         return container[elem_term(self, item, container.sort().domain())]
     if isinstance(container, Tup):
         return z3.Or(*[self.eq(item, x, st, spec) for x in container.items])
+    if isinstance(container, Opt) and isinstance(container.val, SList):
+        if not spec:
+            self.oblige(st, z3.Not(container.isnone), f"not-None@{getattr(node, 'lineno', 0)}:in", "exception-freedom", getattr(node, "lineno", None),
+                        "an Optional list is not None where membership is tested")
+        container = container.val
+    if isinstance(container, SList) and len(container.elems.cs) == 1 and is_z3(item):
+        k = V.fresh("k", I)
+        return z3.Exists(k, z3.And(0 <= k, k < container.length, container.elems.cs[0][k] == (to_real(item) if container.elems.cs[0].sort().range() == R else item)))
     raise EngineError(f"membership test in {container!r}")
 
 
